@@ -71,8 +71,15 @@ func Pairs[K cmp.Ordered, V any](site string, m map[K]V) []KV[K, V] {
 	return out
 }
 
-// Yield is a scheduling point.
+// Yield is a scheduling point; a function entry also counts as one unit of deterministic cost, so that recursion is
+// as visible to the budget as iteration.
 func Yield(site string) {
+	if TickOn {
+		Ticks++
+		if TickBudget > 0 && Ticks > TickBudget {
+			panic(BudgetExceeded{Ticks})
+		}
+	}
 	if Sched != nil {
 		Sched(site)
 	}
